@@ -535,14 +535,14 @@ std::string snapshot_str(const dj::track_snapshot& s)
     return o.os.str();
 }
 
-std::string observe_track(const dj::track& t)
+std::string observe_track(const dj::track& t, bool even_if_invalid)
 {
     Obs o;
     std::string p = "track#" + std::to_string(t.id()) + ".";
     o.fact(p + "is_valid", [&](std::ostream& os) { os << t.is_valid(); });
     bool valid = false;
     try { valid = t.is_valid(); } catch (...) {}
-    if (!valid) return o.os.str();
+    if (!valid && !even_if_invalid) return o.os.str();
     o.fact(p + "album", [&](std::ostream& os) { put_opt(os, t.album()); });
     o.fact(p + "artist", [&](std::ostream& os) { put_opt(os, t.artist()); });
     o.fact(p + "average_loudness", [&](std::ostream& os) { put_opt(os, t.average_loudness()); });
